@@ -110,12 +110,13 @@ Section C03.
       NoDup (map r_id (s_rows st ++ appended g ds)).
   Proof. exact l_transcript_inferred_one. Qed.
 
-  (* ... and its gene ONE derived gene spanning all the gene's subfeatures *)
-  Theorem C03_gene_inferred : forall g st ds t gn, g_no_genes g = false ->
+  (* ... and its gene - when at least one subfeature is filed under that gene id - ONE derived gene spanning all the gene's
+     subfeatures (a gene id that only a transcript line names has no extent and is skipped: F26) *)
+  Theorem C03_gene_inferred : forall g st ds t gn x, g_no_genes g = false ->
     derive g st (tg_pairs g st) None = Ok ds -> NoDup (map r_id (s_rows st)) -> NoDup (map (did g) ds) ->
     (forall d, In d ds -> has_id (did g d) (s_rows st) = false) -> In (t, gn) (tg_pairs g st) ->
-    exists x, extent g st gn = Some x /\
-      find_id gn (s_rows st ++ appended g ds) = Some (set_bin (set_id gn (g_row g gn x))).
+    extent g st gn = Some x ->
+    find_id gn (s_rows st ++ appended g ds) = Some (set_bin (set_id gn (g_row g gn x))).
   Proof. exact l_gene_inferred. Qed.
 
   (* nothing else is derived: every appended row is the transcript or gene row of such a pair *)
